@@ -792,7 +792,7 @@ impl Property for C16 {
     const ID: &'static str = "C16";
     type Case = Case;
     fn rule() -> String {
-        "cases = (document, layout, optional bad leaf). Documents from the node grammar (all scalar styles, multi-byte text, anchors and aliases to scalars and containers, block and flow) and integer-only trees; layouts with a multi-byte first line, LF / CRLF / lone-CR breaks, comments, document markers, indentation 2-4. (A) every reported Location (both sites of every node of a generic Spanned tree, and every error location) is consistent: 1-based, inside the input, line/column recomputed from the char offset agree, byte offset is the UTF-8 index of the char offset, byte length matches the char length. (B) right node: plain node => referenced = defined = the renderer's ground-truth position; value reached through an alias => referenced = the alias token, defined = the anchored node. (C) single-line scalars: the reported byte range is exactly the token the renderer wrote. (D) every scalar leaf in turn replaced by a non-integer and read into an all-integer typed tree: the type error is located at that leaf (directly, or as the definition site when the leaf is reached through an alias). Enum payloads (`!V 5`, `!T [5, 6]`, `{V: 5}`, `{T: [5, 6]}`) read directly and through an alias report the alias as use site. Merge sub-check: merged values report the merge entry's value as use site and the originating scalar as definition site. Non-trivial: multi-byte prefix, CR/CRLF breaks, comments or aliases.".into()
+        "cases = (document, layout, optional bad leaf). Documents from the node grammar (all scalar styles, multi-byte text, anchors and aliases to scalars and containers, block and flow) and integer-only trees; layouts with a multi-byte first line, LF / CRLF / lone-CR breaks, comments, document markers, indentation 2-4. (A) every reported Location (both sites of every node of a generic Spanned tree, and every error location) is consistent: 1-based, inside the input, line/column recomputed from the char offset agree, byte offset is the UTF-8 index of the char offset, byte length matches the char length. (B) right node: plain node => referenced = defined = the renderer's ground-truth position; value reached through an alias => referenced = the alias token, defined = the anchored node. (C) single-line scalars: the reported byte range is exactly the token the renderer wrote. (D) every scalar leaf in turn replaced by a non-integer and read into an all-integer typed tree: the type error is located at that leaf (directly, or as the definition site when the leaf is reached through an alias). Enum payloads (`!V 5`, `!T [5, 6]`, `{V: 5}`, `{T: [5, 6]}`) read directly and through an alias report the alias as use site. Alias-error grid: a value of the wrong type reached through an alias at 16 positions (plain value, sequence item, enum payloads, bytes, `<<: *a`, `<<: [*a]`, inside a merged mapping written in place, inside an in-place element of a merge sequence - alone, after another element, in a block sequence) x 4 values x leading lines x paddings reports the alias token as use site and the anchored node as definition site. Merge sub-check: merged values report the merge entry's value as use site and the originating scalar as definition site. Non-trivial: multi-byte prefix, CR/CRLF breaks, comments or aliases.".into()
     }
     fn assumptions() -> Vec<String> {
         vec![
